@@ -2,6 +2,7 @@ package consensus
 
 import (
 	"errors"
+	"math"
 
 	"github.com/nspcc-dev/dbft"
 	"github.com/nspcc-dev/neo-go/pkg/crypto/keys"
@@ -45,7 +46,7 @@ var _ dbft.RecoveryMessage[util.Uint256] = (*recoveryMessage)(nil)
 
 // DecodeBinary implements the io.Serializable interface.
 func (m *recoveryMessage) DecodeBinary(r *io.BinReader) {
-	r.ReadArray(&m.changeViewPayloads)
+	r.ReadArray(&m.changeViewPayloads, math.MaxUint8)
 
 	var hasReq = r.ReadBool()
 	if hasReq {
@@ -69,8 +70,8 @@ func (m *recoveryMessage) DecodeBinary(r *io.BinReader) {
 		}
 	}
 
-	r.ReadArray(&m.preparationPayloads)
-	r.ReadArray(&m.commitPayloads)
+	r.ReadArray(&m.preparationPayloads, math.MaxUint8)
+	r.ReadArray(&m.commitPayloads, math.MaxUint8)
 }
 
 // EncodeBinary implements the io.Serializable interface.
